@@ -515,7 +515,8 @@ func runMem(c *mon.Case) {
 
 func Spec() *mon.Spec {
 	return &mon.Spec{
-		ID: "C29", Level: "exploration",
+		ID:            "C29",
+		SpinViolation: true, Level: "exploration",
 		Rule: "case = one history: 0..60 commands stored in a real store.NewStore database (few distinct texts with shared prefixes, some deleted again), then histutil.NewHybridStore (session start), 0..24 session additions interleaved with additions made directly on the database ('other sessions'), then 12 cursors (prefix = empty / stem / a whole stored text / absent; plain or wrapped in NewDedupCursor) each driven by a random walk of 1..80 Prev/Next moves (random, all-the-way-back-then-forward, biased, zig-zag; other-session additions also in the middle of a walk) with Get() compared after every move with the model (view = stored entries below the frozen bound ++ session additions; dedup keeps the most recent occurrence; saturating position one step past either end). Phase 'mem' does the same over histutil.NewMemStore / NewHybridStore(nil). Non-trivial = hybrid history that has stored, session and other-session commands (distinct by view), or mem history with > 3 entries.",
 		Assumptions: []string{
 			"the session's view is fixed when a cursor is created: additions by the own session during a walk are not generated (undocumented); deletions during a session are not generated",
